@@ -61,6 +61,20 @@ def resolve(node, env, depth=0, lists=False):
                 env2[ap.loopvar] = Thunk(node.slice, env)
                 node, env = ap.value, env2
                 continue
+            comp = base
+            cenv = benv
+            if isinstance(base, ast.Name) and isinstance(benv.get(base.id), ast.ListComp):
+                comp = benv[base.id]
+            if isinstance(comp, ast.ListComp) and len(comp.generators) == 1 and not comp.generators[0].ifs and \
+                    isinstance(comp.generators[0].target, ast.Name) and isinstance(comp.generators[0].iter, ast.Call) \
+                    and norm(comp.generators[0].iter.func) == "range" and len(comp.generators[0].iter.args) == 1 \
+                    and all(norm(c.func) in DEEP_PURE or norm(c.func) in LINSPACE
+                            for c in ast.walk(comp.elt) if isinstance(c, ast.Call)):
+                # [E(v) for v in range(N)][k]  ->  E(k)   (the list built by a range loop, element k)
+                env2 = dict(cenv)
+                env2[comp.generators[0].target.id] = Thunk(node.slice, env)
+                node, env = comp.elt, env2
+                continue
             if isinstance(base, ast.List) or isinstance(base, ast.Tuple):
                 try:
                     c = expr_ratio(node.slice, env).const()
